@@ -3,7 +3,7 @@ from simv.model.schema import named, is_nn, nullable
 
 INT_POOL = [0, 1, -1, 7, 42, 2147483647, -2147483648, 1000, 65536]
 FLOAT_POOL = [0.0, 1.5, -2.25, 1e20, 3.0, 0.1, -0.0, 1e-7, 123456.789]
-STR_POOL = ["", "s", "hello", "x:y", "a b", "été", "12", "true", "null", "q\"uote", "back\\slash", "line\nfeed"]
+STR_POOL = ["", "s", "hello", "x:y", "a b", "été", "12", "true", "null", "q\"uote", "back\\slash", "line\nfeed", "esc\\u0041x"]
 ID_POOL = ["id1", "", "007", "x"]
 
 
